@@ -1,6 +1,7 @@
 // C06: write() then read() restores the complete observable state of a grid (binary format; ASCII runs as an un-counted concrete sanity pass).
 // args: <grid spec> <history> <binary 1/0>
 //  history: 0 fresh | 1 loaded | 2 loaded + pending refinement | 3 active construction (loaded + parked samples) | 4 empty grid | 5 loaded + conformal map | 6 merged refinement + coefficient overwrite
+//           7 active construction with samples delivered deepest-first (tensors completed before their lower neighbours: complete-but-blocked data)
 #include "tgrid.hpp"
 #include <sstream>
 
@@ -34,6 +35,17 @@ int main(int argc, char **argv){
       grid.loadConstructedPoints(x, model.values(x, d));
     }
   }
+  if (history == 7 && nested && outs > 0){
+    grid.beginConstruction();
+    std::vector<double> cand = local ? grid.getCandidateConstructionPoints(0.0, refine_fds, -1, g.ll) : grid.getCandidateConstructionPoints(type_iptotal, 0, g.ll);
+    size_t nc = cand.size() / d;
+    if (nc > 0){
+      // the first candidate (root), then the last third of the list one by one from the end: the deepest tensors fill up while lower ones are still empty
+      std::vector<double> x(cand.begin(), cand.begin() + d); grid.loadConstructedPoints(x, model.values(x, d));
+      size_t take = std::max<size_t>(2, nc / 3);
+      for (size_t i=0;i<take && i + 1 < nc;i++){ std::vector<double> y(cand.begin() + (nc - 1 - i) * d, cand.begin() + (nc - i) * d); grid.loadConstructedPoints(y, model.values(y, d)); }
+    }
+  }
   if (history == 5 && g.family != "fourier" && g.rule.find("hermite") == std::string::npos && g.rule.find("laguerre") == std::string::npos) grid.setConformalTransformASIN(std::vector<int>(d, 4));
   // ---- round trip
   std::stringstream s1(std::ios::in | std::ios::out | std::ios::binary);
@@ -57,7 +69,7 @@ int main(int argc, char **argv){
     auto step = [&](TasmanianSparseGrid &gr){
       if (gr.isUsingConstruction()){
         std::vector<double> cand = local ? gr.getCandidateConstructionPoints(0.0, refine_classic, -1, g.ll) : gr.getCandidateConstructionPoints(type_level, 0, g.ll);
-        size_t take = std::min<size_t>(cand.size() / d, 3); std::vector<double> x(cand.begin(), cand.begin() + take * d);
+        size_t take = std::min<size_t>(cand.size() / d, history == 7 ? 8 : 3); std::vector<double> x(cand.begin(), cand.begin() + take * d);
         if (take) gr.loadConstructedPoints(x, next.values(x, d));
         gr.finishConstruction();
       } else if (gr.getNumNeeded() > 0) gr.loadNeededValues(next.values(gr.getNeededPoints(), d));
